@@ -414,7 +414,7 @@ func (e *Engine) fieldPath(st *State, base Val, path []int, pos token.Pos, what 
 			return Val{}, e.errf(pos, "field access on non-struct %s", t)
 		}
 		ft := s.Field(idx).Type()
-		cur = Val{Unbox(smt.App(smt.V, "f_get", obj, smt.IntLit(idx)), SortOf(ft)), ft}
+		cur = Val{Unbox(smt.App(smt.V, "f_get", obj, smt.IntLit(e.FID(t, idx))), SortOf(ft)), ft}
 	}
 	return cur, nil
 }
@@ -586,7 +586,7 @@ func (e *Engine) evalComposite(st *State, x *ast.CompositeLit) (Val, error) {
 			if !ok {
 				v = Box(e.ZeroOf(u.Field(i).Type()))
 			}
-			st.Assume(smt.Eq(smt.App(smt.V, "f_get", r, smt.IntLit(i)), v))
+			st.Assume(smt.Eq(smt.App(smt.V, "f_get", r, smt.IntLit(e.FID(ty, i))), v))
 		}
 		return Val{r, ty}, nil
 	case *types.Slice, *types.Array:
@@ -661,25 +661,59 @@ func (e *Engine) evalFuncLit(st *State, x *ast.FuncLit) (Val, error) {
 	return Val{}, e.errf(x.Pos(), "function literal outside the subset")
 }
 
-// noteFresh records a fresh allocation: different from nil, from every pointer
-// the function received and from every earlier allocation.
+// noteFresh records a fresh allocation: the new address is different from nil,
+// from every earlier allocation, and from every address that exists so far -
+// it is not the value of any variable, not an element of any slice a variable
+// holds, and not stored (directly or as a slice element) in any field of any
+// object of the heap as it is at the allocation.
 func (e *Engine) noteFresh(st *State, p smt.T) {
 	for _, q := range st.fresh {
 		st.Assume(smt.Neq(p, q))
 	}
-	if e.entry != nil {
-		var vs []*types.Var
-		for o := range e.entry.vars {
-			if v, ok := o.(*types.Var); ok {
-				vs = append(vs, v)
-			}
+	distinct := func(t smt.T, ty types.Type) {
+		if t.Sort != smt.V || ty == nil || t.S == p.S {
+			return
 		}
-		sortVars(vs)
-		for _, v := range vs {
-			if _, ok := v.Type().Underlying().(*types.Pointer); ok {
-				st.Assume(smt.Neq(p, e.entry.vars[v]))
+		switch u := ty.Underlying().(type) {
+		case *types.Pointer, *types.Interface:
+			st.Assume(smt.Neq(p, t))
+		case *types.Slice:
+			switch u.Elem().Underlying().(type) {
+			case *types.Pointer, *types.Interface:
+				i := smt.T{S: "i?a", Sort: smt.Int}
+				at := smt.App(smt.V, "s_at", t, i)
+				st.Assume(smt.Forall([]smt.Bound{{Name: i.S, Sort: smt.Int}}, smt.Neq(at, p), at))
 			}
 		}
 	}
+	var vs []*types.Var
+	for o := range st.vars {
+		if v, ok := o.(*types.Var); ok {
+			vs = append(vs, v)
+		}
+	}
+	sortVars(vs)
+	for _, v := range vs {
+		distinct(st.vars[v], v.Type())
+	}
+	if e.entry != nil {
+		var es []*types.Var
+		for o := range e.entry.vars {
+			if v, ok := o.(*types.Var); ok {
+				es = append(es, v)
+			}
+		}
+		sortVars(es)
+		for _, v := range es {
+			distinct(e.entry.vars[v], v.Type())
+		}
+	}
+	q := smt.T{S: "q?a", Sort: smt.V}
+	j := smt.T{S: "j?a", Sort: smt.Int}
+	i := smt.T{S: "i?a", Sort: smt.Int}
+	fld := smt.App(smt.V, "f_get", smt.App(smt.V, "select", st.heap, q), j)
+	st.Assume(smt.Forall([]smt.Bound{{Name: q.S, Sort: smt.V}, {Name: j.S, Sort: smt.Int}}, smt.Neq(fld, p), fld))
+	el := smt.App(smt.V, "s_at", fld, i)
+	st.Assume(smt.Forall([]smt.Bound{{Name: q.S, Sort: smt.V}, {Name: j.S, Sort: smt.Int}, {Name: i.S, Sort: smt.Int}}, smt.Neq(el, p), el))
 	st.fresh = append(st.fresh, p)
 }
